@@ -22,7 +22,14 @@ import (
 	_ "verif/sim/props"
 )
 
-const verifDir = "/verif"
+// verifDir is where known_findings.json, evidence/ and replays/ live: /verif, or the snapshot the check
+// script was started from (VERIF_DIR is set by the script).
+var verifDir = func() string {
+	if d := os.Getenv("VERIF_DIR"); d != "" {
+		return d
+	}
+	return "/verif"
+}()
 
 func main() {
 	if len(os.Args) < 2 {
